@@ -565,3 +565,64 @@ class PairObj(Obj):
 
 
 KERNELS = [InstanceKeyEq, AddNode, AddUniqueNode, AddRankDependency, ValidateSameCyclePairs]
+
+
+class AddNodeDeferred(AddNode):
+    name = "graph_wiring.cpp:Wiring::add_node(schema, make_builder)"
+    title = "add_node with a deferred builder: same interning contract; the builder is only made on a miss"
+    sig = "std::function<NodeBuilder ()>"
+
+    def locate(self, dumps):
+        objs = dumps[(self.tu, self.filter)]
+        extract.annotate_files(objs)
+        self.objs = objs
+        self.index(objs)
+        fns = [f for f in extract.find_functions(objs, self.fn_name)
+               if "std::span<const WiringInputRef>" in f.get("type", {}).get("qualType", "")
+               and "WiringNodeSchema" in f.get("type", {}).get("qualType", "")]
+        seen = {f["id"]: f for f in fns}
+        if len(seen) != 1:
+            raise Gap("kernel %s: expected one definition, found %d" % (self.kid, len(seen)))
+        self.fn = list(seen.values())[0]
+        self.src = extract.fn_source(self.fn)
+        return self.fn
+
+    def setup(self, I):
+        th, params = AddNode.setup(self, I)
+        ctx = I.ctx
+        s = Obj("WiringNodeSchema", "schema")
+        ctx.store[(s.oid, "output")] = Ptr(Obj("ts", "output_schema"), self.output_null)
+        self.schema = s
+        ctx.store[(self.g.oid, "builders_made")] = z3.IntVal(0)
+        k = self
+
+        class MakeBuilder(Obj):
+            cls = "std::function<NodeBuilder()>"
+
+            def call(self_, I2, args, n):
+                I2.ctx.write(Loc((k.g.oid, "builders_made")), I2.ctx.store[(k.g.oid, "builders_made")] + 1)
+                return k.builder
+        del params["builder"]
+        params["schema"] = s
+        params["make_builder"] = MakeBuilder(name="make_builder")
+        return th, params
+
+    # loop 0 here is the observer-only loop over inputs (dead: no observers)
+    loops = {0: LoopSpec(unroll=0, unwind_assert=True)}
+
+    def post(self, I, ret):
+        AddNode.post(self, I, ret)
+        ctx = I.ctx
+        reuse = z3.And(z3.Not(self.output_null), self.hit)
+        ctx.oblige("ensures.builder-made-only-on-a-miss", ctx.store[(self.g.oid, "builders_made")] == z3.If(reuse, 0, 1),
+                   kind="post-normal")
+
+
+def _scalars_opt(self, I, args, n):
+    if not args:
+        return Opt(I.ctx.fresh("builder_scalars_has", "bool"), None)
+    return VOID
+
+
+BuilderObj.m_scalars = _scalars_opt
+KERNELS += [AddNodeDeferred]
